@@ -111,6 +111,11 @@ def cases(tier, seed):
                             continue
                         out.append(dict(cls="implicit-leak", blocks=list(nexp_blocks), which=which, hermitian=herm, solver=solver,
                                         fd=fd, total=2))
+    # (o) the same (non-Hermitian) symbolic Hamiltonian used with hermitian=True and hermitian=False one after the other:
+    #     the rejection / acceptance must not depend on the earlier call
+    for seq in ("T-then-F", "F-then-T", "T-then-T", "F-then-F-then-T"):
+        for order in (1, 2):
+            out.append(dict(cls="flag-sequence", seq=seq, order=order, total=2))
     # (m) second-quantised H_0 that is not number conserving in some (each in turn / all) of its internal levels
     for nlev in (1, 2, 3):
         for bad in itertools.product((0, 1), repeat=nlev):
@@ -183,7 +188,7 @@ def run_case(case):
 
 
 def describe_short(case):
-    keys = ("sizes", "E", "fd", "pos", "repr", "hermitian", "defect", "order", "nsym", "rel", "big", "ops", "others", "bad", "nlev", "split", "drive", "blocks", "which", "solver")
+    keys = ("sizes", "E", "fd", "pos", "repr", "hermitian", "defect", "order", "nsym", "rel", "big", "ops", "others", "bad", "nlev", "split", "drive", "blocks", "which", "solver", "seq")
     return {k: case[k] for k in keys if k in case}
 
 
@@ -624,6 +629,58 @@ def run_implicit_leak(case):
     if not V and not any(r[0] == "rejected" for r in res.values()):
         V.append("implicit mode: explicit vectors that are orthonormal but not an invariant subspace of H_0 were accepted and every element answered")
     return V, True, "constructed"
+
+
+def run_flag_sequence(case):
+    import sympy
+
+    from pymablock import block_diagonalize
+
+    x = sympy.Symbol("x", real=True)
+    m = case["order"]
+    H0 = sympy.diag(0, 1, 3)
+    A = sympy.Matrix([[0, 1, 2], [1, 0, 1], [2, 1, 1]])
+    Bad = sympy.Matrix([[0, sympy.I, 0], [sympy.I, 0, 2], [0, 1, 0]])  # neither Hermitian nor anti-Hermitian
+    H = H0 + x * A + x**m * Bad
+    terms = {(0,): H0, (1,): A}
+    terms[(m,)] = terms.get((m,), sympy.zeros(3, 3)) + Bad
+    V = []
+
+    def call(flag):
+        """'rejected' or the list of requested values."""
+        try:
+            with warnings.catch_warnings():
+                warnings.simplefilter("ignore")
+                outs = block_diagonalize(H, subspace_indices=[0, 1, 1], symbols=[x], hermitian=flag)
+                return [outs[w_][(i, i, n)] for w_ in range(3) for i in range(2) for n in range(case["total"] + 1)]
+        except REJECTIONS:
+            return "rejected"
+
+    flags = [f == "T" for f in case["seq"].split("-then-")]
+    results = [call(f) for f in flags]
+    with warnings.catch_warnings():
+        warnings.simplefilter("ignore")
+        ref = block_diagonalize(terms, subspace_indices=[0, 1, 1], hermitian=False)
+        want = [ref[w_][(i, i, n)] for w_ in range(3) for i in range(2) for n in range(case["total"] + 1)]
+    for pos_, (flag, res) in enumerate(zip(flags, results)):
+        if flag and res != "rejected":
+            V.append(f"call {pos_ + 1} of {case['seq']}: hermitian=True on a non-Hermitian symbolic Hamiltonian was answered")
+        if not flag:
+            if res == "rejected":
+                V.append(f"call {pos_ + 1} of {case['seq']}: hermitian=False on a valid symbolic Hamiltonian was rejected")
+            else:
+                for got, w_ in zip(res, want):
+                    g = sympy.Matrix(got).subs(x, 1) if hasattr(got, "subs") or isinstance(got, sympy.MatrixBase) else got
+                    w2 = w_
+                    same_sentinel = (type(g).__name__ in ("Zero", "One") or type(w2).__name__ in ("Zero", "One"))
+                    if same_sentinel:
+                        if g is not w2:
+                            V.append(f"call {pos_ + 1} of {case['seq']}: sentinel mismatch with the order-tuple dict input")
+                        continue
+                    if sympy.simplify(sympy.Matrix(g) - sympy.Matrix(w2)) != sympy.zeros(*sympy.Matrix(w2).shape):
+                        V.append(f"call {pos_ + 1} of {case['seq']}: hermitian=False result differs from the same problem given as an order-tuple dict")
+                        break
+    return V, True, "sequence"
 
 
 def run_sq_h0_nonconserving(case):
